@@ -10,6 +10,12 @@ import FeatModel.Lemmas.C13Parti
 import FeatModel.Lemmas.C13Solve
 import FeatModel.Lemmas.C13Float
 import FeatModel.Lemmas.C13FloatBound
+import FeatModel.Lemmas.C13SolvePcg
+import FeatModel.Lemmas.C13FloatDot
+import FeatModel.Lemmas.C13PartiCells
+import FeatModel.Lemmas.C13PartiAll
+import FeatModel.Lemmas.C13PartiAll2
+import FeatModel.Lemmas.C13PartiAll3
 /-! # C13 — distributed vector synchronisation (Gate / SynchVectorTicket / Global::Matrix)
 
 ## What is modelled as unbounded, and what ties it to the C++
@@ -1430,3 +1436,185 @@ theorem C13.pow_first_order {α : Type} [Field α] [LinearOrder α] [IsStrictOrd
   FeatModel.C13L.pow_first_order u hu n hn
 
 example : ([1, 0] : List Nat).Perm (List.range (exDecomp.patch 0).nbrs.length) := by decide
+
+/-! ## Jacobi-preconditioned CG -/
+
+/-- (P1) `z = D⁻¹ r` with the synchronised inverse diagonal, on a represented residual -/
+theorem C13.jacApply_rep {α : Type} [Field α] (d : Decomp) (h : d.WF)
+    (mats : List (List (List (Nat × α))))
+    (hm : ∀ r, r < d.np → (mats.getD r []).length = (d.patch r).n)
+    (ords : List (List Nat)) (hord : ∀ r, r < d.np → (ords.getD r []).Perm (List.range (d.patch r).nbrs.length))
+    (rs : List (List α)) (R : Nat → α) (hr : Rep d rs R) :
+    Rep d (jacApply d.patches ords mats rs) (fun g => R g * (1 / globalDiag d mats g)) :=
+  FeatModel.C13L.jacApply_rep d h mats hm ords hord rs R hr
+
+theorem C13.pcgInit_rep {α : Type} [Field α] [CharZero α] (d : Decomp) (h : d.WF)
+    (mats : List (List (List (Nat × α))))
+    (hm : ∀ r, r < d.np → (mats.getD r []).length = (d.patch r).n)
+    (ords : List (List Nat)) (hord : ∀ r, r < d.np → (ords.getD r []).Perm (List.range (d.patch r).nbrs.length))
+    (bs xs : List (List α)) (B X : Nat → α) (hb : Rep d bs B) (hx : Rep d xs X) :
+    PCGRep d (pcgInit d.patches ords mats bs xs) (pcgSerialInit d mats B X) :=
+  FeatModel.C13L.pcgInit_rep d h mats hm ords hord bs xs B X hb hx
+
+theorem C13.pcgStep_rep {α : Type} [Field α] [CharZero α] (d : Decomp) (h : d.WF)
+    (mats : List (List (List (Nat × α))))
+    (hm : ∀ r, r < d.np → (mats.getD r []).length = (d.patch r).n)
+    (ords : List (List Nat)) (hord : ∀ r, r < d.np → (ords.getD r []).Perm (List.range (d.patch r).nbrs.length))
+    (st : PCGState α) (S : PCGSerial α) (hs : PCGRep d st S) :
+    PCGRep d (pcgStep d.patches ords mats st) (pcgSerialStep d mats S) :=
+  FeatModel.C13L.pcgStep_rep d h mats hm ords hord st S hs
+
+/-- **distributed Jacobi-PCG = serial Jacobi-PCG** on the assembled operator and diagonal, for every `k`:
+`x`, `r`, `p` are the consistent vectors of the serial `x`, `r`, `p`, and `rz` is the serial `rz` (`PCGRep`) -/
+theorem C13.pcgIter_eq {α : Type} [Field α] [CharZero α] (d : Decomp) (h : d.WF)
+    (mats : List (List (List (Nat × α))))
+    (hm : ∀ r, r < d.np → (mats.getD r []).length = (d.patch r).n)
+    (ords : List (List Nat)) (hord : ∀ r, r < d.np → (ords.getD r []).Perm (List.range (d.patch r).nbrs.length))
+    (bs xs : List (List α)) (B X : Nat → α) (hb : Rep d bs B) (hx : Rep d xs X) (k : Nat) :
+    PCGRep d (pcgIter d.patches ords mats k (pcgInit d.patches ords mats bs xs))
+      (pcgSerialIter d mats k (pcgSerialInit d mats B X)) :=
+  pcgIter_rep d h mats hm ords hord k _ _ (FeatModel.C13L.pcgInit_rep d h mats hm ords hord bs xs B X hb hx)
+
+theorem C13.pcgIter_x_val {α : Type} [Field α] [CharZero α] (d : Decomp) (h : d.WF)
+    (mats : List (List (List (Nat × α))))
+    (hm : ∀ r, r < d.np → (mats.getD r []).length = (d.patch r).n)
+    (ords : List (List Nat)) (hord : ∀ r, r < d.np → (ords.getD r []).Perm (List.range (d.patch r).nbrs.length))
+    (bs xs : List (List α)) (B X : Nat → α) (hb : Rep d bs B) (hx : Rep d xs X) (k : Nat)
+    (r : Nat) (hr : r < d.np) (i : Nat) (hi : i < (d.patch r).n) :
+    val ((pcgIter d.patches ords mats k (pcgInit d.patches ords mats bs xs)).x.getD r []) i
+      = (pcgSerialIter d mats k (pcgSerialInit d mats B X)).x (d.gdof r i)
+    ∧ (pcgIter d.patches ords mats k (pcgInit d.patches ords mats bs xs)).rz
+      = (pcgSerialIter d mats k (pcgSerialInit d mats B X)).rz := by
+  have := pcgIter_rep d h mats hm ords hord k _ _ (FeatModel.C13L.pcgInit_rep d h mats hm ords hord bs xs B X hb hx)
+  exact ⟨this.x.vals r hr i hi, this.rz⟩
+
+/-! ## Float clause for the global dot product -/
+
+/-- (P2) with `fl = id` the float-level dot products are the exact ones; `gdotFl` in rank order is `dot_async` -/
+theorem C13.gdotFl_id {α : Type} [Field α] (ps : List Patch) (xs ys : List (List α)) (f x y : List α) :
+    tripleDotFl (fun x => x) f x y = tripleDot f x y
+    ∧ gdotFl (fun x => x) ps xs ys (List.range ps.length) = gdotAsync none ps xs ys :=
+  ⟨tripleDotFl_id f x y, FeatModel.C13L.gdotFl_id ps xs ys⟩
+
+/-- the exact local triple product is the sum of `tripleTerms f x y` (= `zipWith (*) (zipWith (*) f x) y`) -/
+theorem C13.tripleDot_eq_sum {α : Type} [Field α] (f x y : List α) :
+    tripleDot f x y = (tripleTerms f x y).sum ∧ (tripleTerms f x y).length = min (min f.length x.length) y.length :=
+  ⟨FeatModel.C13L.tripleDot_eq_sum f x y, by simp [tripleTerms]⟩
+
+/-- (a) **rounded local triple product**: two rounded multiplications per entry and at most `n` rounded additions,
+`n` = number of entries -/
+theorem C13.tripleDotFl_bound {α : Type} [Field α] [LinearOrder α] [IsStrictOrderedRing α] (fl : α → α) (u : α) (hu : 0 ≤ u)
+    (hfl : ∀ x, |fl x - x| ≤ u * |x|) (f x y : List α) :
+    |tripleDotFl fl f x y - tripleDot f x y|
+      ≤ ((1 + u) ^ ((tripleTerms f x y).length + 2) - 1) * ((tripleTerms f x y).map fun c => |c|).sum :=
+  FeatModel.C13L.tripleDotFl_bound fl u hu hfl f x y
+
+/-- (b) **rounded global dot product, for EVERY reduction order** (a permutation of the ranks): against the exact
+`dot_async` value `Σ_r Σ_i freq_i x_i y_i` (which is `gdot ps xs ys` by `C13.gdotAsync_eq_gdot` and the global dot
+product `Σ_g X g Y g` by `C13.gdotAsync_eq`); `n` bounds the local lengths -/
+theorem C13.gdotFl_bound {α : Type} [Field α] [LinearOrder α] [IsStrictOrderedRing α] (fl : α → α) (u : α) (hu : 0 ≤ u)
+    (hfl : ∀ x, |fl x - x| ≤ u * |x|) (ps : List Patch) (xs ys : List (List α)) (order : List Nat)
+    (hperm : order.Perm (List.range ps.length)) (n : Nat)
+    (hn : ∀ r, r < ps.length →
+      (tripleTerms (freqs (ps.getD r default)) (xs.getD r []) (ys.getD r [])).length ≤ n) :
+    |gdotFl fl ps xs ys order - gdotAsync none ps xs ys|
+      ≤ ((1 + u) ^ (n + 2 + ps.length) - 1)
+        * ((List.range ps.length).map fun r =>
+            ((tripleTerms (freqs (ps.getD r default)) (xs.getD r []) (ys.getD r [])).map fun c => |c|).sum).sum :=
+  FeatModel.C13L.gdotFl_bound fl u hu hfl ps xs ys order hperm n hn
+
+/-- the same against the global dot product of two consistent vectors on a well-formed decomposition -/
+theorem C13.gdotFl_bound_global {α : Type} [Field α] [LinearOrder α] [IsStrictOrderedRing α] (fl : α → α) (u : α) (hu : 0 ≤ u)
+    (hfl : ∀ x, |fl x - x| ≤ u * |x|) (d : Decomp) (h : d.WF) (xs ys : List (List α)) (X Y : Nat → α)
+    (hxl : ∀ r, r < d.np → (xs.getD r []).length = (d.patch r).n)
+    (hyl : ∀ r, r < d.np → (ys.getD r []).length = (d.patch r).n)
+    (hX : ∀ r, r < d.np → ∀ i, i < (d.patch r).n → val (xs.getD r []) i = X (d.gdof r i))
+    (hY : ∀ r, r < d.np → ∀ i, i < (d.patch r).n → val (ys.getD r []) i = Y (d.gdof r i))
+    (order : List Nat) (hperm : order.Perm (List.range d.patches.length)) (n : Nat)
+    (hn : ∀ r, r < d.patches.length →
+      (tripleTerms (freqs (d.patches.getD r default)) (xs.getD r []) (ys.getD r [])).length ≤ n) :
+    |gdotFl fl d.patches xs ys order - ((d.maps.flatten.dedup).map fun g => X g * Y g).sum|
+      ≤ ((1 + u) ^ (n + 2 + d.patches.length) - 1)
+        * ((List.range d.patches.length).map fun r =>
+            ((tripleTerms (freqs (d.patches.getD r default)) (xs.getD r []) (ys.getD r [])).map fun c => |c|).sum).sum := by
+  rw [← C13.gdotAsync_eq d h xs ys X Y hxl hyl hX hY]
+  exact FeatModel.C13L.gdotFl_bound fl u hu hfl d.patches xs ys order hperm n hn
+
+example : ([2, 0, 1] : List Nat).Perm (List.range exDecomp.patches.length)
+    ∧ ∀ r, r < exDecomp.patches.length →
+      (tripleTerms (freqs (exDecomp.patches.getD r default)) (exVs.getD r []) (exVs.getD r [])).length ≤ 3 := by
+  refine ⟨by decide, ?_⟩
+  intro r hr
+  simp only [tripleTerms, List.length_zipWith, freqs_length]
+  have : (exDecomp.patches.getD r default).n ≤ 3 := by
+    have hr' : r = 0 ∨ r = 1 ∨ r = 2 := by change r < 3 at hr; omega
+    rcases hr' with rfl | rfl | rfl <;> decide
+  omega
+
+/-- (P3, the cell dimension only) DOFs on the cells (`d = m.dim`, e.g. a discontinuous pressure space): the
+decomposition is well-formed; all mirrors are empty and no DOF is shared because a partition has no cell in two
+patches.  Together with `C13.WF_of_partition_dim` this covers every single dimension `0 ≤ d ≤ m.dim`; the
+all-dimensions-at-once numbering (`Decomp.append`) is NOT proved. -/
+theorem C13.WF_of_partition_cells (m : FeatModel.Parti.Mesh) (p : FeatModel.Parti.Parti) (hm : m.consistent = true)
+    (hp : FeatModel.Parti.isPartition p = true) : (decompOfPartiDim m p m.dim).WF :=
+  FeatModel.C13L.WF_of_partition_cells m p hm hp
+
+example : (decompOfPartiDim FeatModel.Parti.exMesh FeatModel.Parti.exParti 2).maps = [[1], [0]]
+    ∧ (decompOfPartiDim FeatModel.Parti.exMesh FeatModel.Parti.exParti 2).patches.map (·.nbrs)
+        = [[(1, [])], [(0, [])]] := by decide
+
+/-! ## Combining decompositions (several kinds of DOFs at once) -/
+
+/-- (P3-i) **two well-formed decompositions over the same patches and the same neighbour ranks (in the same order)
+combine to a well-formed one** (`Decomp.append`, in `Lemmas/C13PartiAll.lean`): local DOFs of `d2` behind those of
+`d1`, global DOFs of `d2` shifted by `off`, mirrors concatenated; `off` must bound the global DOFs of `d1` -/
+theorem C13.WF_append (d1 d2 : Decomp) (off : Nat) (h1 : d1.WF) (h2 : d2.WF) (hnp : d1.np = d2.np)
+    (hranks : ∀ r, r < d1.np → (d1.patch r).nbrs.map (·.1) = (d2.patch r).nbrs.map (·.1))
+    (hoff : ∀ r, r < d1.np → ∀ g ∈ d1.lmap r, g < off) : (d1.append d2 off).WF :=
+  FeatModel.C13L.WF_append d1 d2 off h1 h2 hnp hranks hoff
+
+/-- bookkeeping of `Decomp.append` -/
+theorem C13.append_spec (d1 d2 : Decomp) (off : Nat) (h1 : d1.WF) (h2 : d2.WF) (hnp : d1.np = d2.np) (r : Nat)
+    (hr : r < d1.np) :
+    (d1.append d2 off).np = d1.np
+    ∧ (d1.append d2 off).lmap r = d1.lmap r ++ (d2.lmap r).map (· + off)
+    ∧ ((d1.append d2 off).patch r).n = (d1.patch r).n + (d2.patch r).n
+    ∧ (∀ i, i < (d1.patch r).n → (d1.append d2 off).gdof r i = d1.gdof r i)
+    ∧ (∀ j, j < (d2.patch r).n → (d1.append d2 off).gdof r (j + (d1.patch r).n) = d2.gdof r j + off) := by
+  refine ⟨app_np d1 d2 off hnp, app_lmap d1 d2 off h1 h2 hnp r hr, ?_,
+    fun i hi => app_gdof_left d1 d2 off h1 h2 hnp r hr i hi,
+    fun j hj => app_gdof_right d1 d2 off h1 h2 hnp r hr j hj⟩
+  rw [app_patch d1 d2 off hnp r hr]
+
+/-- (P3-ii, two summands) vertex DOFs + edge DOFs at once on a partitioned mesh of dimension ≥ 2: the pattern of
+the all-dimensions (Q2-type) numbering (`C13.WF_of_partition_all`) -/
+theorem C13.WF_of_partition_vertices_edges (m : FeatModel.Parti.Mesh) (p : FeatModel.Parti.Parti)
+    (hm : m.consistent = true) (hf : m.facetsOk = true) (hp : FeatModel.Parti.isPartition p = true)
+    (hd : 1 < m.dim) :
+    ((decompOfPartiDim m p 0).append (decompOfPartiDim m p 1) (m.numOf 0)).WF :=
+  FeatModel.C13L.WF_of_partition_01 m p hm hf hp hd
+
+example : ((decompOfPartiDim FeatModel.Parti.exMesh FeatModel.Parti.exParti 0).append
+      (decompOfPartiDim FeatModel.Parti.exMesh FeatModel.Parti.exParti 1) (FeatModel.Parti.exMesh.numOf 0)).maps
+    = [[1, 2, 4, 5, 7, 9, 11, 12], [0, 1, 3, 4, 6, 8, 10, 11]] ∧ 1 < FeatModel.Parti.exMesh.dim := by decide
+
+/-- (P3-ii) **the all-dimensions-at-once decomposition of a partitioned mesh is well-formed** (one DOF per vertex,
+edge, …, cell; dimension `k` numbered behind the smaller dimensions, global offset `dimOffset m k` = number of
+entities of smaller dimension; `decompOfPartiAll` is the fold of `Decomp.append` over `decompOfPartiDim m p k`,
+`k = 0 … m.dim`, defined in `Lemmas/C13PartiAll3.lean`).  So every C13 theorem with a `d.WF` hypothesis holds for
+Q2-type spaces on every decomposition that `extract_patch` can produce. -/
+theorem C13.WF_of_partition_all (m : FeatModel.Parti.Mesh) (p : FeatModel.Parti.Parti) (hm : m.consistent = true)
+    (hf : m.facetsOk = true) (hp : FeatModel.Parti.isPartition p = true) : (decompOfPartiAll m p).WF :=
+  FeatModel.C13L.WF_of_partition_all m p hm hf hp
+
+/-- the partial folds: dimensions `0 … k`, with number of patches and neighbour ranks -/
+theorem C13.WF_of_partition_upTo (m : FeatModel.Parti.Mesh) (p : FeatModel.Parti.Parti) (hm : m.consistent = true)
+    (hf : m.facetsOk = true) (hp : FeatModel.Parti.isPartition p = true) (k : Nat) (hk : k ≤ m.dim) :
+    (decompOfPartiUpTo m p k).WF ∧ (decompOfPartiUpTo m p k).np = p.nDom
+    ∧ ∀ r, r < p.nDom →
+        ((decompOfPartiUpTo m p k).patch r).nbrs.map (·.1) = FeatModel.Parti.commRanks m p r :=
+  ⟨(upTo_inv m p hm hf hp k hk).1, (upTo_inv m p hm hf hp k hk).2.1, (upTo_inv m p hm hf hp k hk).2.2.1⟩
+
+/-- on C12's two-quadrilateral example: 6 vertices, 7 edges, 2 cells -> global numbers 0-5, 6-12, 13-14 -/
+example : (decompOfPartiAll FeatModel.Parti.exMesh FeatModel.Parti.exParti).maps
+    = [[1, 2, 4, 5, 7, 9, 11, 12, 14], [0, 1, 3, 4, 6, 8, 10, 11, 13]] := by decide
